@@ -415,6 +415,27 @@ func (p *program) compile(i int, asInit bool, rt int) []byte {
 			a.pushU(0)
 			a.op(vm.LOG1)
 		case "mem":
+			if memStress && o.B%2 == 1 {
+				// C15: reach a page or more in one step, then extend the memory a few words at a time from wherever it ends
+				base := []uint64{4096, 8192, 40000, 0}[o.C%4]
+				steps := 1 + o.D%4
+				note("MSTORE @%#x then %d x MSTORE @MSIZE+%d", base, steps, 32*(o.E%3))
+				if base > 0 {
+					a.pushU(1)
+					a.pushU(base)
+					a.op(vm.MSTORE)
+				}
+				for k := 0; k < steps; k++ {
+					a.pushU(uint64(k + 1))
+					a.op(vm.MSIZE)
+					if o.E%3 > 0 {
+						a.pushU(uint64(32 * (o.E % 3)))
+						a.op(vm.ADD)
+					}
+					a.op(vm.MSTORE)
+				}
+				break
+			}
 			note("MSTORE @%#x", memOffsets[o.A%len(memOffsets)])
 			a.pushU(1)
 			a.pushU(memOffsets[o.A%len(memOffsets)])
